@@ -9,6 +9,8 @@ import Paroxy.Proofs.HintsTrim
 import Paroxy.Proofs.Isort
 namespace Paroxy.Hints
 
+variable {O : CharOracle}
+
 /-! ### `set` / `sorted` of the isolated hints -/
 
 theorem mem_dedup (x : Str) (l : List Str) : x ∈ dedup l ↔ x ∈ l := by
@@ -51,14 +53,14 @@ theorem sortDedup_ne_nil {l : List Str} (h : l ≠ []) : sortDedup l ≠ [] := b
 
 /-! ### Hygiene, as propositions -/
 
-structure Hyg (d : Decorated) : Prop where
-  ok : ∀ c ∈ codeLines d, OkCode c
-  whole : ∀ L ∈ wholeLabels d, Clean L
+structure Hyg (O : CharOracle) (d : Decorated) : Prop where
+  ok : ∀ c ∈ codeLines d, (OkCode O) c
+  whole : ∀ L ∈ wholeLabels d, (Clean O) L
   ne : codeLines d ≠ []
   first : ∀ c, (codeLines d).head? = some c → c.code ≠ []
   last : ∀ c, (codeLines d).getLast? = some c → c.code ≠ []
 
-theorem hyg_of (d : Decorated) (h : hygienic d = true) : Hyg d := by
+theorem hyg_of (d : Decorated) (h : (hygienic O) d = true) : (Hyg O) d := by
   simp only [hygienic, Bool.and_eq_true, List.all_eq_true] at h
   obtain ⟨⟨h1, h2⟩, h3⟩ := h
   cases hcs : codeLines d with
@@ -106,9 +108,9 @@ theorem joinNL_getLast? (ls : List Str) (last : Str) (hl : ls.getLast? = some la
       | some x => rfl
 
 theorem stripPy_plain (cs : List CodeLine) (hne : cs ≠ [])
-    (hfirst : ∀ c, cs.head? = some c → ∃ x t, c.code = x :: t ∧ isSpacePy x = false)
-    (hlast : ∀ c, cs.getLast? = some c → c.code ≠ [] ∧ ∀ x, c.code.getLast? = some x → isSpacePy x = false) :
-    stripPy (joinNL (plainLines cs)) = joinNL (plainLines cs) := by
+    (hfirst : ∀ c, cs.head? = some c → ∃ x t, c.code = x :: t ∧ (isSpacePy O) x = false)
+    (hlast : ∀ c, cs.getLast? = some c → c.code ≠ [] ∧ ∀ x, c.code.getLast? = some x → (isSpacePy O) x = false) :
+    (stripPy O) (joinNL (plainLines cs)) = joinNL (plainLines cs) := by
   apply stripPy_id
   · intro x hx
     cases cs with
@@ -130,13 +132,13 @@ theorem stripPy_plain (cs : List CodeLine) (hne : cs ≠ [])
 
 /-! ### Centrifugation of a decorated program -/
 
-theorem splitWs_clean (L : Str) (h : Clean L) : splitWs L = [L] := by
+theorem splitWs_clean (L : Str) (h : (Clean O) L) : (splitWs O) L = [L] := by
   have := splitWs_word L [] h.nosp h.ne rfl
   simpa [splitWs, splitWs'] using this
 
-theorem scanIsolated_decorated (d : Decorated) (ok : ∀ c ∈ codeLines d, OkCode c)
-    (hw : ∀ L ∈ wholeLabels d, Clean L) :
-    scanIsolated (d.map renderLine) = ((codeLines d).map renderCode, wholeLabels d) := by
+theorem scanIsolated_decorated (d : Decorated) (ok : ∀ c ∈ codeLines d, (OkCode O) c)
+    (hw : ∀ L ∈ wholeLabels d, (Clean O) L) :
+    (scanIsolated O) (d.map renderLine) = ((codeLines d).map renderCode, wholeLabels d) := by
   induction d with
   | nil => rfl
   | cons l t ih =>
@@ -150,8 +152,8 @@ theorem scanIsolated_decorated (d : Decorated) (ok : ∀ c ∈ codeLines d, OkCo
       have := ih (fun x hx => ok x (by simpa [codeLines] using hx)) (fun L' hL' => hw L' (by simp [wholeLabels, hL']))
       simp [scanIsolated, renderLine, isolatedRest_isolated n L, splitWs_clean L hL, this, codeLines, wholeLabels]
 
-theorem renderLine_noNL (d : Decorated) (ok : ∀ c ∈ codeLines d, OkCode c)
-    (hw : ∀ L ∈ wholeLabels d, Clean L) : ∀ l ∈ d.map renderLine, '\n' ∉ l := by
+theorem renderLine_noNL (d : Decorated) (ok : ∀ c ∈ codeLines d, (OkCode O) c)
+    (hw : ∀ L ∈ wholeLabels d, (Clean O) L) : ∀ l ∈ d.map renderLine, '\n' ∉ l := by
   induction d with
   | nil => simp
   | cons l t ih =>
@@ -212,7 +214,7 @@ theorem hasInfix_hinted (c : CodeLine) (h : c.hints ≠ []) : hasInfix (' ' :: m
 
 /-- `lines[i] += " # paroxython:"` (if needed) then the appended tokens = the same code line with
 more hints. -/
-theorem addMarker_render (c : CodeLine) (ok : OkCode c) (hs : List Hint) (hne : hs ≠ []) :
+theorem addMarker_render (c : CodeLine) (ok : (OkCode O) c) (hs : List Hint) (hne : hs ≠ []) :
     addMarker (renderCode c) ++ renderHints hs = renderCode (c.addHints hs) := by
   have hne' : c.hints ++ hs ≠ [] := by simp [hne]
   by_cases h : c.hints = []
@@ -252,7 +254,7 @@ theorem exists_snoc {α : Type} (a : α) (l : List α) : ∃ mid last, a :: l = 
 theorem map_flatMap_nil {α β : Type} (f : α → List β) : ([] : List α).flatMap f = [] := rfl
 
 /-- The lines after centrifugation are again rendered code lines. -/
-theorem centLines_render (ws : List Str) (hws : ws ≠ []) (cs : List CodeLine) (ok : ∀ c ∈ cs, OkCode c) :
+theorem centLines_render (ws : List Str) (hws : ws ≠ []) (cs : List CodeLine) (ok : ∀ c ∈ cs, (OkCode O) c) :
     centLines ws (cs.map renderCode) = (centrifuged ws cs).map renderCode := by
   cases cs with
   | nil => rfl
@@ -298,13 +300,13 @@ theorem centrifuged_plain (ws : List Str) (cs : List CodeLine) :
       rw [hml, centrifuged_snoc]
       simp [plainLines, CodeLine.addHints]
 
-theorem trimBlank_id (ls : List Str) (hf : ∀ l, ls.head? = some l → blankPy l = false)
-    (hl : ∀ l, ls.getLast? = some l → blankPy l = false) : trimBlank ls = ls := by
-  have e1 : ls.dropWhile blankPy = ls := by
+theorem trimBlank_id (ls : List Str) (hf : ∀ l, ls.head? = some l → (blankPy O) l = false)
+    (hl : ∀ l, ls.getLast? = some l → (blankPy O) l = false) : (trimBlank O) ls = ls := by
+  have e1 : ls.dropWhile (blankPy O) = ls := by
     cases ls with
     | nil => rfl
     | cons a t => simp [List.dropWhile_cons, hf a rfl]
-  have e2 : ls.reverse.dropWhile blankPy = ls.reverse := by
+  have e2 : ls.reverse.dropWhile (blankPy O) = ls.reverse := by
     cases hr : ls.reverse with
     | nil => rfl
     | cons a t =>
@@ -312,7 +314,7 @@ theorem trimBlank_id (ls : List Str) (hf : ∀ l, ls.head? = some l → blankPy 
       simp [List.dropWhile_cons, hl a this]
   simp [trimBlank, e1, e2]
 
-theorem blankPy_false_of_mem {l : Str} {x : Char} (hx : x ∈ l) (hs : isSpacePy x = false) : blankPy l = false := by
+theorem blankPy_false_of_mem {l : Str} {x : Char} (hx : x ∈ l) (hs : (isSpacePy O) x = false) : (blankPy O) l = false := by
   simp only [blankPy, List.all_eq_false]
   exact ⟨x, hx, by simp [hs]⟩
 
@@ -322,8 +324,8 @@ theorem renderCode_code_sub (c : CodeLine) : ∀ x ∈ c.code, x ∈ renderCode 
   · rw [renderCode_plain c h]; exact hx
   · rw [renderCode_hinted c h]; simp [hx]
 
-theorem trimBlank_render (d : Decorated) (hy : Hyg d) :
-    trimBlank ((codeLines d).map renderCode) = (codeLines d).map renderCode := by
+theorem trimBlank_render (d : Decorated) (hy : (Hyg O) d) :
+    (trimBlank O) ((codeLines d).map renderCode) = (codeLines d).map renderCode := by
   apply trimBlank_id
   · intro l hl
     simp only [List.head?_map, Option.map_eq_some_iff] at hl
@@ -349,8 +351,8 @@ theorem trimBlank_render (d : Decorated) (hy : Hyg d) :
 /-- **`centrifugate_hints` on a decorated program**: the isolated hints disappear, their labels
 (sorted, without repetition) are opened at the end of the first code line and closed at the end of
 the last one. -/
-theorem centrifugate_decorate (d : Decorated) (hy : Hyg d) :
-    centrifugate (decorate d) =
+theorem centrifugate_decorate (d : Decorated) (hy : (Hyg O) d) :
+    (centrifugate O) (decorate d) =
       .ok (joinNL ((centrifuged (sortDedup (wholeLabels d)) (codeLines d)).map renderCode)) := by
   have hdne : d ≠ [] := by
     intro e; exact hy.ne (by simp [e, codeLines])
@@ -383,8 +385,8 @@ theorem numbered_append (i : Nat) (a b : List CodeLine) :
   | nil => simp [numbered]
   | cons c t ih => simp [numbered, ih, Nat.add_assoc, Nat.add_comm 1]
 
-theorem numberedTokens_render (i : Nat) (cs : List CodeLine) (ok : ∀ c ∈ cs, OkCode c) :
-    numberedTokens i (cs.map renderCode) = (numbered i cs).map fun p => (p.1, renderHint p.2) := by
+theorem numberedTokens_render (i : Nat) (cs : List CodeLine) (ok : ∀ c ∈ cs, (OkCode O) c) :
+    (numberedTokens O) i (cs.map renderCode) = (numbered i cs).map fun p => (p.1, renderHint p.2) := by
   induction cs generalizing i with
   | nil => rfl
   | cons c t ih =>
@@ -392,14 +394,14 @@ theorem numberedTokens_render (i : Nat) (cs : List CodeLine) (ok : ∀ c ∈ cs,
       ih (i + 1) (fun x hx => ok x (List.mem_cons_of_mem _ hx))]
 
 /-- The token regex reads a rendered hint back. -/
-theorem stepTok_render (i : Nat) (st : Bufs) (h : Hint) (hc : Clean h.label) :
-    stepTok i st (renderHint h) = stepEv i st (tokOf h) := by
+theorem stepTok_render (i : Nat) (st : Bufs) (h : Hint) (hc : (Clean O) h.label) :
+    (stepTok O) i st (renderHint h) = stepEv i st (tokOf h) := by
   obtain ⟨mark, L, sty⟩ := h
   obtain ⟨plus, uni, gap⟩ := sty
   cases L with
   | nil => exact absurd rfl hc.ne
   | cons c l =>
-    have hw : isWord c = true := hc.word c rfl
+    have hw : (isWord O) c = true := hc.word c rfl
     have hno : splitAfter (c :: l) = (c :: l, false) := hc.noell
     have hel : ∀ u, splitAfter (c :: (l ++ ellipsis u)) = (c :: l, true) := fun u => splitAfter_ellipsis (c :: l) u
     cases mark with
@@ -415,8 +417,8 @@ theorem stepTok_render (i : Nat) (st : Bufs) (h : Hint) (hc : Clean h.label) :
       · have := matchLabel_ell c l hw
         simp [stepTok, renderHint, tokOf, ellipsis, this, hno]
 
-theorem runToks_render (st : Bufs) (toks : List (Nat × Hint)) (hc : ∀ p ∈ toks, Clean p.2.label) :
-    runToks st (toks.map fun p => (p.1, renderHint p.2)) = runH st toks := by
+theorem runToks_render (st : Bufs) (toks : List (Nat × Hint)) (hc : ∀ p ∈ toks, (Clean O) p.2.label) :
+    (runToks O) st (toks.map fun p => (p.1, renderHint p.2)) = runH st toks := by
   induction toks generalizing st with
   | nil => rfl
   | cons p t ih =>
@@ -439,23 +441,23 @@ theorem mem_numbered {i : Nat} {cs : List CodeLine} {p : Nat × Hint} (h : p ∈
 
 /-! ### The centrifuged lines are still hygienic -/
 
-theorem okCode_addHints (c : CodeLine) (ok : OkCode c) (hs : List Hint) (hne : c.code ≠ [])
-    (hc : ∀ h ∈ hs, Clean h.label) : OkCode (c.addHints hs) :=
+theorem okCode_addHints (c : CodeLine) (ok : (OkCode O) c) (hs : List Hint) (hne : c.code ≠ [])
+    (hc : ∀ h ∈ hs, (Clean O) h.label) : (OkCode O) (c.addHints hs) :=
   ⟨ok.nonl, ok.nom, ok.notrail, fun _ => hne, fun h hh => by
     simp only [CodeLine.addHints, List.mem_append] at hh
     rcases hh with hh | hh
     · exact ok.clean h hh
     · exact hc h hh⟩
 
-theorem okCode_centrifuged (ws : List Str) (hws : ∀ L ∈ ws, Clean L) (cs : List CodeLine)
-    (ok : ∀ c ∈ cs, OkCode c)
+theorem okCode_centrifuged (ws : List Str) (hws : ∀ L ∈ ws, (Clean O) L) (cs : List CodeLine)
+    (ok : ∀ c ∈ cs, (OkCode O) c)
     (hfirst : ∀ c, cs.head? = some c → c.code ≠ []) (hlast : ∀ c, cs.getLast? = some c → c.code ≠ []) :
-    ∀ c ∈ centrifuged ws cs, OkCode c := by
-  have hO : ∀ h ∈ ws.map wOpen, Clean h.label := by
+    ∀ c ∈ centrifuged ws cs, (OkCode O) c := by
+  have hO : ∀ h ∈ ws.map wOpen, (Clean O) h.label := by
     intro h hh; simp only [List.mem_map] at hh; obtain ⟨L, hL, rfl⟩ := hh; exact hws L hL
-  have hC : ∀ h ∈ ws.map wClose, Clean h.label := by
+  have hC : ∀ h ∈ ws.map wClose, (Clean O) h.label := by
     intro h hh; simp only [List.mem_map] at hh; obtain ⟨L, hL, rfl⟩ := hh; exact hws L hL
-  have hB : ∀ h ∈ (ws.flatMap fun L => [wOpen L, wClose L]), Clean h.label := by
+  have hB : ∀ h ∈ (ws.flatMap fun L => [wOpen L, wClose L]), (Clean O) h.label := by
     intro h hh; simp only [List.mem_flatMap] at hh
     obtain ⟨L, hL, hcase⟩ := hh
     simp at hcase
@@ -748,15 +750,15 @@ theorem events_eq (d : Decorated) (L : Str) :
   simp only [mem_sortDedup]
 
 /-- **`get_program` on a decorated program.** -/
-theorem getProgram_decorate (d : Decorated) (r : Str → List SSpan) (hy : Hyg d)
+theorem getProgram_decorate (d : Decorated) (r : Str → List SSpan) (hy : (Hyg O) d)
     (hbal : ∀ L, Bal (events d L) (r L)) (hnt : ∀ L, NoTie (events d L)) :
-    ∃ p, getProgramFrom (decorate d) = .ok p ∧ p.source = stripPy (joinNL (base d)) ∧
+    ∃ p, (getProgramFrom O) (decorate d) = .ok p ∧ p.source = (stripPy O) (joinNL (base d)) ∧
       (∀ L sp, p.addition.count L sp = (r L).count (false, sp)) ∧
       (∀ L sp, p.deletion.count L sp = (r L).count (true, sp)) := by
   let ws := sortDedup (wholeLabels d)
   let cs' := centrifuged ws (codeLines d)
-  have hws : ∀ L ∈ ws, Clean L := fun L hL => hy.whole L ((mem_sortDedup L _).mp hL)
-  have ok' : ∀ c ∈ cs', OkCode c := okCode_centrifuged ws hws _ hy.ok hy.first hy.last
+  have hws : ∀ L ∈ ws, (Clean O) L := fun L hL => hy.whole L ((mem_sortDedup L _).mp hL)
+  have ok' : ∀ c ∈ cs', (OkCode O) c := okCode_centrifuged ws hws _ hy.ok hy.first hy.last
   have hcent := centrifugate_decorate d hy
   -- the tokens
   have hne' : cs'.map renderCode ≠ [] := by
@@ -769,11 +771,11 @@ theorem getProgram_decorate (d : Decorated) (r : Str → List SSpan) (hy : Hyg d
     splitNL_joinNL _ hne' (by
       intro l hl; simp only [List.mem_map] at hl; obtain ⟨c, hc, rfl⟩ := hl
       exact renderCode_noNL c (ok' c hc))
-  have hclean : ∀ p ∈ numbered 1 cs', Clean p.2.label := by
+  have hclean : ∀ p ∈ numbered 1 cs', (Clean O) p.2.label := by
     intro p hp
     obtain ⟨c, hc, hh⟩ := mem_numbered hp
     exact (ok' c hc).clean _ hh
-  have hrun : runToks {} (numberedTokens 1 (splitNL (joinNL (cs'.map renderCode)))) = runH {} (numbered 1 cs') := by
+  have hrun : (runToks O) {} ((numberedTokens O) 1 (splitNL (joinNL (cs'.map renderCode)))) = runH {} (numbered 1 cs') := by
     rw [hsplit, numberedTokens_render 1 cs' ok', runToks_render _ _ hclean]
   -- label by label
   have hproj0 : ∀ L, proj L ({} : Bufs) = ({} : St1) := fun L => rfl
@@ -792,13 +794,13 @@ theorem getProgram_decorate (d : Decorated) (r : Str → List SSpan) (hy : Hyg d
     exact (Except.ok.inj this).symm
   have hsa : st'.add.stack = [] := stack_nil_of_linesOf _ (fun L => by have := hp L; simpa [proj] using congrArg St1.sa this)
   have hsd : st'.del.stack = [] := stack_nil_of_linesOf _ (fun L => by have := hp L; simpa [proj] using congrArg St1.sd this)
-  have hcollect : collectHints (joinNL (cs'.map renderCode)) =
+  have hcollect : (collectHints O) (joinNL (cs'.map renderCode)) =
       .ok (getResult st'.add.result, getResult st'.del.result) := by
     simp [collectHints, collectToks, hrun, hst', finish, hsa, hsd]
   -- the stored source
-  have hsrc : removeHints (joinNL (cs'.map renderCode)) = stripPy (joinNL (base d)) := by
+  have hsrc : (removeHints O) (joinNL (cs'.map renderCode)) = (stripPy O) (joinNL (base d)) := by
     rw [removeHints, subHints_lines cs' ok', centrifuged_plain]; rfl
-  refine ⟨⟨stripPy (joinNL (base d)), getResult st'.add.result, getResult st'.del.result⟩, ?_, rfl, ?_, ?_⟩
+  refine ⟨⟨(stripPy O) (joinNL (base d)), getResult st'.add.result, getResult st'.del.result⟩, ?_, rfl, ?_, ?_⟩
   · have hc2 := hcollect
     have hs2 := hsrc
     simp only [cs', ws] at hc2 hs2
